@@ -16,7 +16,7 @@ import vlib
 MOD, MC, GEN, JUDGE, TRACE = "ReplicationSearch", "MC_ReplicationSearch", "ReplicationSearchGen", \
     "ReplicationSearchJudge", "ReplicationSearchTrace"
 KINDS = ["minute", "hour", "day", "changesets"]
-CASE_FIELDS = ("kind", "skew", "style", "prefix", "unit", "pauses", "pauselen", "lay", "lists", "present", "first", "cur")
+CASE_FIELDS = ("kind", "skew", "style", "prefix", "unit", "pauses", "pauselen", "lay", "lists", "seam", "present", "first", "cur")
 
 # --------------------------------------------------------------------------
 class Cases:
